@@ -156,7 +156,7 @@ def calc_cav(acc_sig):
     Absolute Velocity. 1991. EPRI TR-100082-1'2, Palo Alto, California.
     """
     from scipy.integrate import cumulative_trapezoid
-    abs_acc = np.abs(acc_sig.values)
+    abs_acc = np.abs(np.asarray(acc_sig.values, dtype=float))
     return cumulative_trapezoid(abs_acc, dx=acc_sig.dt, initial=0)
 
 
